@@ -1454,7 +1454,22 @@ class GroupBy:
             arrays = map(np.array, results_per_value)
             if transform:
                 self._unify_group_key_chunks(keep_chunked=False)
-                arrays = [arr[self.group_ikey] for arr in arrays]
+                # `arrays` hold one result per OBSERVED group in the order of `group_index`, while the
+                # row codes number ALL labels in their original order: map every code to the position
+                # of its group's result; unobserved labels and the null key (-1) get a trailing null
+                observed = np.array(
+                    [len(arr) > 0 for arr in array_splits[0]], dtype=bool
+                )
+                label_order = np.arange(self.ngroups)[self._labels_argsort]
+                n_observed = int(observed.sum())
+                slot = np.full(self.ngroups + 1, n_observed)
+                slot[label_order[observed]] = np.arange(n_observed)
+                arrays = [
+                    np.append(
+                        arr.astype(float if arr.dtype.kind in "biuf" else object), np.nan
+                    )[slot[self.group_ikey]]
+                    for arr in arrays
+                ]
                 index = (
                     common_index
                     if common_index is not None
